@@ -95,7 +95,18 @@ func (r *run) lifecycle() {
 							arrived++
 						}
 					}
-					sentNew := se.nextSeq - mark[se.idx]
+					// only datagrams addressed to a destination that exists count
+					sentNew := 0
+					for q, p := range se.sent {
+						if q < mark[se.idx] {
+							continue
+						}
+						for _, t := range se.targets {
+							if t.idx == p.tgt && r.targetReachable(t) {
+								sentNew++
+							}
+						}
+					}
 					allReject := false
 					for _, t := range se.targets {
 						allReject = allReject || t.reject
@@ -200,14 +211,18 @@ func (r *run) lifecycle() {
 // reachable reports whether at least one of the session's targets can answer at all.
 func (r *run) reachable(se *session) bool {
 	for _, t := range se.targets {
-		if t.reject {
-			continue
-		}
-		if r.cs.Proto != "direct" || r.e.W.HostOf(t.ip.Addr()) == t.host {
+		if r.targetReachable(t) {
 			return true
 		}
 	}
 	return false
+}
+
+func (r *run) targetReachable(t *target) bool {
+	if t.reject || t.unresolvable {
+		return false
+	}
+	return r.cs.Proto != "direct" || r.e.W.HostOf(t.ip.Addr()) == t.host
 }
 
 func firstLines(s string, n int) string {
